@@ -10,7 +10,7 @@ S = {
     'S7': "S7 (SimPy): events with equal time and priority run in creation order",
 }
 ENV_RUN = "env.run is modelled as an arbitrary finite sequence of process segments, each preserving the proved class / heap invariants (the segment rule); it is not itself verified"
-MACHINE_RUN = "Machine.run has an assumed contract (its body subtracts and re-adds task.io, a number for ingest tasks only): spawns exactly one do_work, net effect on the machine nil"
+MACHINE_RUN = "Machine.run / run_task / stop_task are verified bodies (no longer assumed): Task.io is a union-typed heap field (dict | number | None); on the dict reading the encoding keeps the earlier approximation (a number stored there reads as an empty dict), only arithmetic on it is checked (TypeError obligation unless it holds a number)"
 ALG = "user scheduling algorithms are an abstract callee: may call the public Cluster API, returns an arbitrary task->machine mapping (Scheduling.run assumed contract); they do not write private fields of the actors or spawn processes"
 NX = "networkx (assumed): predecessors / successors / pred / nodes as an edge relation; topological_sort lists every node once with every edge forward; relabel_nodes is the image graph"
 NP = "numpy.random (assumed): default_rng(seed) is a pure function of seed, default_rng() is not; normal/poisson return arrays of the requested length (all equal to the mean when the spread is 0); a[a > x] keeps exactly the elements > x"
